@@ -10,6 +10,7 @@
 // joined with the reference state and the last bytes typed.
 #include "c15_models.hpp"
 #include <igris/container/sline.h>
+#include <igris/defs/signal.h>
 #include <igris/shell/vtermxx.h>
 #include <type_traits>
 
@@ -133,7 +134,7 @@ namespace
 
     void cb_exec(void *p, const char *line, unsigned int len) { ((c15::Sink *)p)->on_exec(line, len); }
     void cb_write(void *p, const char *d, unsigned int n) { ((c15::Sink *)p)->on_write(d, n); }
-    void cb_signal(void *, int) {}
+    void cb_signal(void *p, int s) { ((c15::Sink *)p)->on_signal(s); }
 
     struct XVterm
     {
@@ -141,15 +142,31 @@ namespace
         static constexpr bool public_only = PUBLIC_ONLY, has_line = !PUBLIC_ONLY;
         igris::vtermxx vt;
         unsigned cap;
-        XVterm(unsigned cap_, unsigned hist, c15::Sink *sink) : cap(cap_)
+        static int sigint() { return SIGINT; }
+        XVterm(unsigned cap_, unsigned hist, c15::Sink *sink, const c15::TermCfg &cfg = c15::TermCfg(),
+               const char *prompt = nullptr)
+            : cap(cap_)
         {
+            if (cfg.echo == 3)
+                vt.set_echo(0); // before init: init switches it on again
+            if (prompt && cfg.prompt_before_init())
+                vt.set_prompt(prompt);
             vt.init(cap, hist);
 #ifndef C15_PUBLIC_ONLY
             memset(vt.rl.line().data(), 0x55, cap);
 #endif
-            vt.set_execute_callback(igris::make_delegate(cb_exec, (void *)sink));
-            vt.set_write_callback(igris::make_delegate(cb_write, (void *)sink));
-            vt.set_signal_callback(igris::make_delegate(cb_signal, (void *)sink));
+            if (cfg.echo == 1 || cfg.echo == 2)
+                vt.set_echo(0);
+            if (cfg.echo == 4)
+                vt.set_echo(1);
+            if (prompt && !cfg.prompt_before_init())
+                vt.set_prompt(prompt);
+            if (cfg.execcb)
+                vt.set_execute_callback(igris::make_delegate(cb_exec, (void *)sink));
+            if (cfg.writecb())
+                vt.set_write_callback(igris::make_delegate(cb_write, (void *)sink));
+            if (cfg.sigcb)
+                vt.set_signal_callback(igris::make_delegate(cb_signal, (void *)sink));
         }
         void feed(int c) { vt.newdata((int16_t)c); }
         void init_step() { vt.init_step(); }
